@@ -69,6 +69,8 @@ var runners = map[string]func(*H){
 	"C18": runComputeProps("C18"),
 	"C03": runOapiCompute("C03"),
 	"C13": runC13,
+	"C19": runC19,
+	"C20": runC20,
 	"C16": runGrpc("C16"),
 	"C17": runGrpc("C17"),
 	"C15": runC15,
